@@ -674,6 +674,7 @@ func genC22(seed uint64) *Plan {
 		pc := basicPeer(i, as)
 		pc.DUTHold = pick(r, []uint16{90, 30, 9, 3, 180, 0})
 		pc.IPv6 = r.Chance(0.3)
+		pc.DUTAdvMPv4 = r.Chance(0.4) // local side advertises multiprotocol for IPv4 unicast or not
 		if r.Chance(0.4) {
 			pc.AddPathRX = r.Chance(0.5)
 			if r.Chance(0.5) {
@@ -714,6 +715,10 @@ func genC22(seed uint64) *Plan {
 			if pc.AS > 65535 {
 				o.ASN4 = false // AS_TRANS without the capability: cannot resolve
 			}
+		}
+		o.MPv4 = r.Chance(0.5) // the peer advertises multiprotocol for IPv4 unicast or not, whatever the local side does
+		if pc.IPv6 && r.Chance(0.25) {
+			o.MPv6 = false
 		}
 		if r.Chance(0.4) {
 			o.AddPath = map[uint16]uint8{1: uint8(1 + r.Intn(3))}
@@ -801,6 +806,21 @@ func (o *c22Oracle) AfterStep(w *World, i int, s *Step) {
 			o.negHold[s.Peer] = hold
 			if time.Duration(est.HoldTimeNS) != time.Duration(hold)*time.Second {
 				w.Env.Violate("C22", "negotiated_hold_time", "peer %s: offers %d (peer) / %d (local) must negotiate %d s, FSM uses %v", p.Cfg.Name, spec.HoldTime, p.Cfg.DUTHold, hold, time.Duration(est.HoldTimeNS))
+			}
+			// multiprotocol encoding of a family is used only if both sides advertised the capability for
+			// it (the local side always does for IPv6, for IPv4 only when configured to)
+			for _, fam := range est.Families {
+				local, peer := p.Cfg.DUTAdvMPv4, spec.MPv4
+				if fam.AFI == 2 {
+					local, peer = true, spec.MPv6
+				}
+				if fam.MultiProtocol != (local && peer) {
+					w.Env.Violate("C22", "negotiated_multiprotocol", "peer %s family %d: multiprotocol capability advertised locally=%v by the peer=%v, the session uses multiprotocol encoding=%v",
+						p.Cfg.Name, fam.AFI, local, peer, fam.MultiProtocol)
+				}
+			}
+			if est.Supports4Octet != spec.ASN4 {
+				w.Env.Violate("C22", "negotiated_asn4", "peer %s: 4-octet AS capability advertised by the peer=%v (always advertised locally), the session uses 4-octet AS numbers=%v", p.Cfg.Name, spec.ASN4, est.Supports4Octet)
 			}
 			// RFC 7911: a direction of add-path is used only if one side advertised "send" and the other
 			// "receive" for the family (peer bits: 1 receive, 2 send)
